@@ -146,6 +146,22 @@ def mpfull : P String := do
   else if rs.any (fun r => decide (r.value < -1048576) || decide (1048576 < r.value)) then return "skip ill_conditioned_huge_messages"
   else return s!"diff MaxPlus.messagePassing model=({ma},{showQ mv}) impl=({ia},{showQ iv}) iters={iters}"
 
+/-- `lsgraph call A nodes | per agent: neighbours, adjacent factors` : FactorGraph bookkeeping against the model's
+    `nbrs` (recomputed from the key sets) and `adjNodes` (filter in node order) -/
+def lsgraphH : P String := do
+  let _call ← P.nat
+  let A ← P.nats; let nodes ← P.natss; P.bar
+  let per ← P.rep (do let nb ← P.nats; let fs ← P.natss; pure (nb, fs)) A.length
+  P.eof
+  let n := A.length
+  let g : List Node := nodes.map (fun k => ⟨k, []⟩)
+  let bad := (List.range n).find? (fun a =>
+    let p := per.getD a ([], [])
+    p.1 != nbrs n a nodes || p.2 != (adjNodes a g).map (·.keys))
+  match bad with
+  | some a => return s!"diff FactorGraph.bookkeeping agent={a} impl={per.getD a ([], [])} model=({nbrs n a nodes},{(adjNodes a g).map (·.keys)})"
+  | none => return (if nodes.isEmpty || n ≤ 1 then "ok trivial" else "ok lsgraph")
+
 /-! ### UCVE -/
 
 structure URule where
@@ -257,6 +273,7 @@ def handle (toks : List String) : String :=
     | "mp" :: rest => P.run (approx "MaxPlus") rest
     | "mpfull" :: rest => P.run mpfull rest
     | "rils" :: rest => P.run (approx "ReusingIterativeLocalSearch") rest
+    | "lsgraph" :: rest => P.run lsgraphH rest
     | "veqf" :: rest => P.run veqf rest
     | "lsqf" :: rest => P.run (approxqf "LocalSearch") rest
     | "mpqf" :: rest => P.run (approxqf "MaxPlus") rest
